@@ -347,6 +347,37 @@ func main() {
 			cases = append(cases, &caseT{id: fmt.Sprintf("%s-dir%d", b.name, di), doc: d, types: tm, typeOrder: to, outDir: od})
 		}
 	}
+	// schemas the generator must reject: a duplicate field number in each combination of enumerated / plain fields
+	// (first or second occurrence), and a duplicate message type — on every shipped schema
+	for bi, b := range bases {
+		isEnum := func(f *xField, tm map[string]string) bool { return len(f.Values) > 0 && tm[f.Type] != "Bool" }
+		for _, combo := range [][2]bool{{false, false}, {false, true}, {true, false}, {true, true}} {
+			d, tm, to := clone(b)
+			var first, second *xField
+			for _, f := range d.Fields {
+				if first == nil && isEnum(f, tm) == combo[0] {
+					first = f
+					continue
+				}
+				if first != nil && second == nil && isEnum(f, tm) == combo[1] {
+					second = f
+				}
+			}
+			if first == nil || second == nil {
+				continue
+			}
+			second.Number = first.Number
+			kind := fmt.Sprintf("duplicate-field-number(enum=%v,then enum=%v)", combo[0], combo[1])
+			cases = append(cases, &caseT{id: fmt.Sprintf("reject-%d-%v-%v", bi, combo[0], combo[1]), doc: d, types: tm, typeOrder: to, outDir: "./rej", reject: true,
+				muts: []mutation{{kind, "fields " + first.Name + " and " + second.Name + " share number " + first.Number}}})
+		}
+		d, tm, to := clone(b)
+		if len(d.Messages) >= 2 {
+			d.Messages[len(d.Messages)-1].MsgType = d.Messages[0].MsgType
+			cases = append(cases, &caseT{id: fmt.Sprintf("reject-%d-msgtype", bi), doc: d, types: tm, typeOrder: to, outDir: "./rej", reject: true,
+				muts: []mutation{{"duplicate-msgtype", "last message shares the msgtype of the first"}}})
+		}
+	}
 	nDerived := c.Pick(10, 150)
 	for i := 0; i < nDerived; i++ {
 		r := c.Rand("c12", int64(i))
